@@ -39,7 +39,8 @@ Fixpoint names_in (ns : list string) (l : list (string * script)) : bool :=
 
 (* ------------------------------------------------------------------ facts about the setter scripts
    (finite checks by vm_compute over the generated list; restated in props/C19.v)                   *)
-Definition open_finding (name : string) : bool := String.eqb name "CSSImportRule.cssText".
+(* no open finding in raising mode any more (CSSImportRule.cssText loads the imported sheet before it commits) *)
+Definition open_finding (name : string) : bool := false.
 
 Definition all_atomic_but_open : bool :=
   forallb (fun p : string * script => open_finding (fst p) || atomic (snd p)) setters.
@@ -60,27 +61,25 @@ Qed.
 Lemma refused_are_transcribed : names_in refused_anchored hand_scripts = true.
 Proof. vm_compute. reflexivity. Qed.
 
-Lemma importrule_csstext_refuted : has_dirty_raise script_CSSImportRule_cssText.
-Proof. eapply (refuted_by_path _ false 2). vm_compute. reflexivity. Qed.
-
-Lemma importrule_csstext_not_atomic : atomic script_CSSImportRule_cssText = false.
-Proof. apply dirty_raise_not_atomic. exact importrule_csstext_refuted. Qed.
+Lemma setters_unchanged :
+  forall name s, In (name, s) setters ->
+    forall ro tr, exec ro s tr -> raises tr -> written tr = [].
+Proof. intros name s Hin. exact (setters_unchanged_partial name s Hin eq_refl). Qed.
 
 Lemma repaired_setters_atomic :
   atomic script_CSSMediaRule_cssText = true /\ atomic script_MarginRule_cssText = true /\
   atomic script_Property_cssText = true /\ atomic script_Property_priority = true /\
   atomic script_MediaList_mediaText = true /\ atomic script_PropertyValue_cssText = true /\
   atomic script_ColorValue_cssText = true /\ atomic script_CSSNamespaceRule_cssText = true /\
-  atomic script_CSSImportRule_href = true.
+  atomic script_CSSImportRule_href = true /\ atomic script_CSSImportRule_cssText = true.
 Proof. vm_compute. repeat split; reflexivity. Qed.
 
 (* ------------------------------------------------------------------ lenient mode (second theorem) *)
 (* not covered by the lenient statement:
-   - CSSImportRule.cssText: the open finding (also refuted in raising mode);
    - Property.cssText[_mediaQuery]: the `_mediaQuery and not valuetokens` shortcut resets value and priority although the
      name may have been rejected; the mode is selected by a private constructor flag that nothing in the library sets. *)
 Definition lenient_excluded (name : string) : bool :=
-  String.eqb name "CSSImportRule.cssText" || String.eqb name "Property.cssText[_mediaQuery]".
+  String.eqb name "Property.cssText[_mediaQuery]".
 
 Definition all_lenient_but_excluded : bool :=
   forallb (fun p : string * lscript => lenient_excluded (fst p) || atomic_lenient (snd p)) lsetters.
